@@ -9,7 +9,6 @@ import time
 from concurrent.futures import ThreadPoolExecutor
 
 from .. import tlc
-from ..pipeline import validate_group
 from ..hosts import ss_partner as P
 
 ENGINE = "ss_linklayer"
@@ -133,17 +132,22 @@ def sc_training(rng, quick):
     out.append(("bringup", bringup() + fix_ops(traffic(rng, 6, bad=False, retry=False))))
     out.append(("late-ts2", bringup({"ts1_extra": 3})))
     out.append(("late-idle", bringup({"ts2_extra": 3})))
+    # uncooperative partners: the link must stay down (the 12 ms time-outs themselves are C41's unit-level business)
+    out.append(("partner-skips-ts2", [("power_on",), ("config", dict(AUTO)), ("train", {"skip_ts2": True, "limit": 420}),
+                                      ("quiet",)]))
+    out.append(("partner-never-idles", [("power_on",), ("config", dict(AUTO)), ("train", {"never_idle": True, "limit": 420}),
+                                        ("quiet",)]))
     out.append(("hot-at-polling", bringup({"hot": 2}) + [("hdr", "good", 0), ("consume", 1), ("quiet",)]))
     for kind in ("recover", "hot", "warm"):
         out.append(("u0-" + kind, bringup() + fix_ops(traffic(rng, 5, bad=False, retry=False)) + retrain(kind, rng)
                     + fix_ops(traffic(rng, 4, bad=False, retry=False))))
     # a warm reset at different points of the training sequence (each phase of the transmitter)
-    for i, n in enumerate([6, 30, 70, 130, 200, 245] if quick else range(4, 256, 12)):
+    for i, n in enumerate([6, 70, 200, 245] if quick else range(4, 256, 12)):
         out.append(("reset-in-training-%d" % n,
                     [("power_on",), ("config", dict(AUTO)), ("train", {"limit": n}), ("warm_reset", 2 + i % 3),
                      ("train", {}), ("wait_ready",), ("quiet",)]))
     # ... and of a recovery
-    for n in ([10, 90, 170] if quick else range(5, 190, 15)):
+    for n in ([10, 170] if quick else range(5, 190, 15)):
         out.append(("reset-in-recovery-%d" % n,
                     bringup() + [("recover", {"limit": n}), ("warm_reset", 3), ("train", {}), ("wait_ready",),
                                  ("quiet",)]))
@@ -162,13 +166,13 @@ def sc_epochs(rng, quick):
            ("consume", 2), ("offer",), ("wait", 12)]
     post = [("hdr", "good", 0), ("consume", 4), ("offer",), ("quiet",)]
     for kind in ("recover", "hot", "warm"):
-        offs = [0, 1, 2, 3, 5, 8] if quick else range(0, 14)
+        offs = [0, 2, 3, 5] if quick else range(0, 14)
         for d in offs:
             # leave U0 d cycles after one of the DUT's own link commands started (keep-alive, LGOOD, LCRD ...)
             for anchor in (("lc_start",), ("hp_start",)):
                 if anchor[0] == "hp_start":
                     mid = [("offer", {"nowait": True}), ("sync", "hp_start", 40), ("wait", d)]
-                    if quick and d not in (0, 2, 5):
+                    if quick and d not in (0, 3):
                         continue
                 else:
                     mid = [("hdr", "good", 0, {"nowait": True, "gap": 0}), ("sync", "lc_start", 40), ("wait", d)]
@@ -177,7 +181,7 @@ def sc_epochs(rng, quick):
                             bringup() + pre + mid + retrain(kind, rng, o) + post))
     # leaving U0 during the advertisement itself
     for kind in ("recover", "warm"):
-        for d in ([1, 4, 7, 11] if quick else range(0, 16)):
+        for d in ([1, 6, 11] if quick else range(0, 16)):
             o = {"lead": 0} if kind != "warm" else {"len": 3}
             out.append(("%s-in-advertisement+%d" % (kind, d),
                         bringup(settle=False)[:3] + [("wait", d)] + retrain(kind, rng, o) + post))
@@ -210,6 +214,9 @@ def sc_timers(rng, quick):
     shortly before the time-out."""
     out = []
     out.append(("idle-u0", bringup() + [("wait", 120), ("quiet",)]))
+    # the timers start at U0 entry, however long the idle handshake before it took
+    out.append(("long-idle-handshake", bringup({"ts2_extra": 3}) + [("wait", 30)] + retrain("hot", rng, {"ts2_extra": 2})
+                + [("wait", 30), ("quiet",)]))
     # a header / an offer / a partner command d cycles after the DUT's last link command: the keep-alive timer expires
     # around the reaction
     seq = []
@@ -228,6 +235,11 @@ def sc_timers(rng, quick):
     out.append(("silence-after-bringup", bringup() + retrain("silence", rng)))
     out.append(("silence-after-traffic", bringup() + [("hdr", "good", 0), ("consume", 1), ("offer",), ("quiet",)]
                 + retrain("silence", rng) + [("offer",), ("quiet",)]))
+    # a received header packet restarts the 1 ms timer just as a link command does
+    out.append(("header-restarts-recovery-timer",
+                bringup(cfg={"auto_ka": None, "auto": 1.0}) + [("wait", 560), ("hdr", "good", 0), ("wait", 640),
+                                                               ("lc", P.LDN, 0), ("config", {"auto_ka": 150}),
+                                                               ("quiet",)]))
     # the partner speaks again shortly before the time-out: no recovery
     for back in ([40, 8] if quick else [200, 40, 12, 8, 6]):
         out.append(("reception-%d-before-timeout" % back,
@@ -239,7 +251,7 @@ def sc_timers(rng, quick):
 def sc_flow(rng, quick, n=None):
     """C37 / C39 / C33: traffic in both directions with stalls, corrupted headers, LBAD / LRTY, credit exhaustion."""
     out = []
-    for i in range(n or (10 if quick else 60)):
+    for i in range(n or (8 if quick else 60)):
         out.append(("random-%d" % i, bringup(cfg={"auto_ack": rng.choice([2, 4, 9])})
                     + fix_ops(traffic(rng, 22 if quick else 40))))
     # credit exhaustion both ways
@@ -340,23 +352,39 @@ def classify(trace, matched, status, meta):
 
 
 def validate(rep, items, bench):
+    """One TLC batch: all recorded traces + a corrupted copy of one of them (machinery self-test: it must be rejected).
+    Same accounting as pipeline.validate_group."""
     if not items:
         return 0
     prepared, table = prepare(items)
     sub = dict(NBuf=4, K=bench.K, R=bench.R, TCap=bench.R + 50, **SLACK)
     cfg = tlc.render_cfg(_cfg("LinkLayerTrace.cfg.tmpl"), sub)
+    bad = _corrupt(prepared)
+    batch = [t for t, _ in prepared] + ([bad] if bad is not None else [])
     with tlc.scratch("ss-linklayer-") as d:
         hf = os.path.join(d, "hdrs.json")
         with open(hf, "w") as f:
             json.dump(table, f)
-        # machinery self-test: a corrupted copy of a real trace must be rejected
-        bad = _corrupt(prepared)
-        if bad is not None:
-            v, _ = tlc.validate_traces(SPEC_DIR, "LinkLayerTrace", cfg, [bad], env={"HDR_FILE": hf})
-            if v[0][1] == "ok" and v[0][0] == len(bad):
-                raise tlc.TLCError("self-test: a corrupted trace (transmitted LGOOD number changed) was accepted")
-        return validate_group(rep, SPEC_DIR, "LinkLayerTrace", cfg, prepared, classify=classify,
-                              what_prefix="USB3LinkLayer ", env={"HDR_FILE": hf})
+        verdicts, _res = tlc.validate_traces(SPEC_DIR, "LinkLayerTrace", cfg, batch, env={"HDR_FILE": hf})
+    if bad is not None:
+        m, st = verdicts.pop()
+        if st == "ok" and m == len(bad):
+            raise tlc.TLCError("self-test: a corrupted trace (letter of a transmitted LCRD changed) was accepted")
+    ok = steps = 0
+    for (trace, meta), (matched, status) in zip(prepared, verdicts):
+        n = len(trace)
+        if status == "ok" and matched == n:
+            ok += 1
+            steps += n
+            continue
+        sig = classify(trace, matched, status, meta)
+        k = matched if status != "ok" else matched + 1
+        ctx = [{a: b for a, b in r.items() if a != "w"} for r in trace[max(0, k - 4):k]]
+        what = "USB3LinkLayer %s: real-gateware trace rejected by LinkLayerTrace at step %d/%d, clause '%s' (%s); last " \
+               "records: %s" % (meta, k, n, status, sig.get("pattern"), ctx)
+        rep.violation(sig, what, {"meta": meta, "failing_step": k, "clause": status, "trace_prefix": trace[:k + 1]})
+    rep.add_traces(ok, steps)
+    return ok
 
 
 def _corrupt(prepared):
@@ -408,7 +436,7 @@ def model_check(name):
     """One exhaustive TLC run of a focused configuration (see docs/ss_linklayer.md for the bounds)."""
     consts, uncovered = MC[name]
     cfg = tlc.render_cfg(_cfg("MCLinkLayer.cfg.tmpl"), consts)
-    res = tlc.model_check(SPEC_DIR, "MCLinkLayer", cfg, workers=6, timeout=900, allow_uncovered=uncovered + tuple(os.environ.get("SSLL_ALLOW","").split(",")))
+    res = tlc.model_check(SPEC_DIR, "MCLinkLayer", cfg, workers=4, timeout=1500, allow_uncovered=uncovered + tuple(os.environ.get("SSLL_ALLOW","").split(",")))
     return name, res, consts
 
 
@@ -496,32 +524,36 @@ def _run(rep, prop, families, mc_names, sim_from=None, extra_assume=()):
                "shown nothing but idle and keep-alives for 26 cycles" % SLACK)
     for a in extra_assume:
         rep.assume(a)
-    # exhaustive part in the background while the real layer is simulated
-    pool = ThreadPoolExecutor(max_workers=max(1, len(mc_names)))
+    # exhaustive part (and the behaviour generation) in the background while the real layer is simulated
+    if not quick:
+        mc_names = list(mc_names) + [n + "+" for n in mc_names]
+    pool = ThreadPoolExecutor(max_workers=len(mc_names) + 1)
     futs = [pool.submit(model_check, n) for n in mc_names]
+    fsim = None
+    if sim_from:
+        consts = dict(MC[sim_from][0], MaxRx=1000, MaxTx=1000, MaxEpochs=3, MaxRst=1)
+        cfg = tlc.render_cfg(_cfg("MCLinkLayer_sim.cfg.tmpl"), consts)
+        fsim = pool.submit(tlc.simulate, SPEC_DIR, "MCLinkLayer", cfg, 10 if quick else 100, 120, rep.seed * 7 + 1)
     bench = _bench()
     t1 = time.time()
     named = []
     for fname, fam in families:
         for name, script in fam(rep.rng, quick):
             named.append((fname, name, script))
-    # spec -> code: Env projections of TLC-simulated behaviours of the bounded model
-    if sim_from:
-        consts = dict(MC[sim_from][0], MaxRx=1000, MaxTx=1000, MaxEpochs=3, MaxRst=1)
-        cfg = tlc.render_cfg(_cfg("MCLinkLayer_sim.cfg.tmpl"), consts)
-        behs = tlc.simulate(SPEC_DIR, "MCLinkLayer", cfg, num=12 if quick else 100, depth=120, seed=rep.seed * 7 + 1)
-        for i, b in enumerate(behs):
-            named.append(("tlc-simulate", "beh-%d" % i, script_from_behaviour(b, rep.rng)))
-    jobs = []
-    for i, (fam, name, script) in enumerate(named):
-        stall = 0.0          # the PHY takes a word every cycle (as USB3PhysicalLayer does)
-        jobs.append((script, rep.seed * 100003 + i, stall))
+    jobs = [(script, rep.seed * 100003 + i, 0.0) for i, (_f, _n, script) in enumerate(named)]
     results = run_scripts(jobs)
+    # spec -> code: Env projections of TLC-simulated behaviours of the bounded model
+    if fsim is not None:
+        more = [("tlc-simulate", "beh-%d" % i, script_from_behaviour(b, rep.rng)) for i, b in enumerate(fsim.result())]
+        jobs2 = [(script, rep.seed * 100003 + 5000 + i, 0.0) for i, (_f, _n, script) in enumerate(more)]
+        results += run_scripts(jobs2)
+        named += more
+        jobs += jobs2
     t2 = time.time()
     items = []
     cycles = 0
     for (fam, name, script), (ev, info), job in zip(named, results, jobs):
-        meta = {"family": fam, "scenario": name, "stall_p": job[2], "seed": job[1], "cycles": info["cycles"]}
+        meta = {"family": fam, "scenario": name, "seed": job[1], "cycles": info["cycles"]}
         if info["aborted"]:
             raise tlc.TLCError("scenario %s did not finish within the cycle budget" % name)
         items.append((ev, meta))
@@ -563,15 +595,18 @@ def extra_C44(rep):
 
 def extra_C33(rep):
     _run(rep, "C33", [("flow", lambda rng, q: sc_flow(rng, q, n=8 if q else 40)),
-                      ("training", lambda rng, q: sc_training(rng, q)[:7])], ["flow"])
+                      ("training", lambda rng, q: sc_training(rng, q)[:7])], ["flow_tx"])
 
 
 def extra_C37(rep):
-    _run(rep, "C37", [("flow", sc_flow)], ["flow"], sim_from="flow")
+    _run(rep, "C37", [("flow", sc_flow)], ["flow_rx"], sim_from="flow_rx")
 
 
 def extra_C39(rep):
-    _run(rep, "C39", [("flow", sc_flow)], ["flow"])
+    _run(rep, "C39", [("flow", sc_flow), ("retry_down", sc_retry_down)], ["flow_tx"], sim_from="flow_tx",
+         extra_assume=("ss_linklayer: clean stimuli let a retransmission (LBAD .. LRTY .. all unacknowledged headers sent "
+                       "again) finish before the link leaves U0; witness stimuli (family retry_down) reset the link or make "
+                       "it recover in the middle of it (finding C39-retransmission-survives-link-down)",))
 
 
 EXTRA = {"C33": extra_C33, "C37": extra_C37, "C38": extra_C38, "C39": extra_C39, "C41": extra_C41, "C44": extra_C44}
